@@ -33,6 +33,7 @@ def wt (S : Schema) : Ann → Tree → Prop
       (∀ p ∈ pre, ∃ name ∈ k.fields.map (·.name), p.2.field? name = none) ∧
       ks = k.fields.map (·.name) ∧ (k.fields.map (·.name)).Nodup ∧
       k.admits vs = true ∧          -- the instance satisfies its own `__post_init__`
+      k.hook = none ∧ (∀ p ∈ pre, p.2.hook = none) ∧      -- no `_dictify` / `_datify` hooks among the classes tried
       wtL S (k.fields.map (·.ann)) vs
   | a, .list xs => candidates S a = [] ∧ plainL xs = true
   | a, .dict _ vs => candidates S a = [] ∧ plainL vs = true
@@ -164,7 +165,7 @@ theorem datify_dictify (S : Schema) : ∀ (a : Ann) (v : Tree), wt S a v → dat
     rw [dictify_of_plain _ (by simpa [plain] using h.2), datify_nonclass S a _ h.1]
   | a, .obj c ks vs, h => by
     simp only [wt] at h
-    obtain ⟨pre, k, post, hc, hpre, rfl, hn, hadm, hw⟩ := h
+    obtain ⟨pre, k, post, hc, hpre, rfl, hn, hadm, hhk, hhpre, hw⟩ := h
     have hl : k.fields.length = vs.length := by
       have := wtL_length S _ _ hw; simpa using this
     have hrec := datifyL_dictifyL S k k.fields vs (fun f hf => by
@@ -176,12 +177,12 @@ theorem datify_dictify (S : Schema) : ∀ (a : Ann) (v : Tree), wt S a v → dat
     have hown : construct c k (k.fields.map (·.name)) vs (.dict (k.fields.map (·.name)) (dictifyL vs))
         = .obj c (k.fields.map (·.name)) vs := by
       simp only [construct, hall, ↓reduceIte, fillFields_own k.fields vs hn hl, hadm]
-    simp only [dictify, datify, hc, List.map_append, List.map_cons, hrec, hown]
+    simp only [dictify, datify, hc, List.map_append, List.map_cons, hrec, hown, hhk]
     rw [pick_skip]
     · simp [pick]
     · intro x hx c' ks' vs' he
       obtain ⟨p, hp, rfl⟩ := List.mem_map.mp hx
-      simp only at he
+      simp only [hhpre p hp] at he
       rw [construct_reject _ _ _ _ _ (hpre p hp)] at he
       cases he
 theorem datifyL_dictifyL (S : Schema) (k : Class) : ∀ (fs : List Field) (vs : List Tree),
@@ -201,8 +202,8 @@ theorem wt_obj_intro {S : Schema} {a : Ann} {c : Nat} {ks : List Key} {vs : List
     (hc : candidates S a = pre ++ (c, k) :: post)
     (hpre : ∀ p ∈ pre, ∃ name ∈ k.fields.map (·.name), p.2.field? name = none)
     (hks : ks = k.fields.map (·.name)) (hn : (k.fields.map (·.name)).Nodup)
-    (hadm : k.admits vs = true)
+    (hadm : k.admits vs = true) (hhk : k.hook = none) (hhpre : ∀ p ∈ pre, p.2.hook = none)
     (hw : wtL S (k.fields.map (·.ann)) vs) : wt S a (.obj c ks vs) := by
-  simp only [wt]; exact ⟨pre, k, post, hc, hpre, hks, hn, hadm, hw⟩
+  simp only [wt]; exact ⟨pre, k, post, hc, hpre, hks, hn, hadm, hhk, hhpre, hw⟩
 
 end Hio.Dom
